@@ -466,17 +466,22 @@ impl PartialEq for Epoch {
 
 impl PartialOrd for Epoch {
     fn partial_cmp(&self, other: &Self) -> Option<Ordering> {
-        Some(
-            self.duration
-                .cmp(&other.to_time_scale(self.time_scale).duration),
-        )
+        Some(self.cmp(other))
     }
 }
 
 impl Ord for Epoch {
     fn cmp(&self, other: &Self) -> Ordering {
-        self.duration
-            .cmp(&other.to_time_scale(self.time_scale).duration)
+        // As for the equality, a time scale with leap seconds is always converted into the one without:
+        // the opposite conversion is not one to one around a leap second.
+        if self.time_scale.uses_leap_seconds() && !other.time_scale.uses_leap_seconds() {
+            self.to_time_scale(other.time_scale)
+                .duration
+                .cmp(&other.duration)
+        } else {
+            self.duration
+                .cmp(&other.to_time_scale(self.time_scale).duration)
+        }
     }
 }
 
